@@ -185,6 +185,117 @@ def extract_sites(tree):
     return out
 
 
+# ---------------------------------------------------------------------------------------------- recursion depth per call site
+# Every recursive edge of the unmarshaller: (function, callees in textual order -> field of `Incs`).  The last argument of
+# each call must be `flags`, `flags + k` or `ctx->flags + k`; `k` is what the Lean model adds to its depth counter at that
+# call (Unmarsh/Bytes.lean), and `Incs.ok` (BytesObligations.depths_ok) demands that every path from one MARSH_STACKCHECK
+# to the next adds at least 1.
+CALLEES = ("unmarshal_one", "unmarshal_one_def", "unmarshal_one_env", "unmarshal_one_fiber", "unmarshal_one_abstract")
+INC_SITES = [
+    ("unmarshal_one_env", [("unmarshal_one", "envFiber"), ("unmarshal_one", "envValue")]),
+    ("unmarshal_one_def", [("unmarshal_one", "defName"), ("unmarshal_one", "defSource"), ("unmarshal_one", "defConst"),
+                           ("unmarshal_one", "defSym"), ("unmarshal_one_def", "defSub")]),
+    ("unmarshal_one_fiber", [("unmarshal_one", "fbFrameFn"), ("unmarshal_one_env", "fbFrameEnv"), ("unmarshal_one", "fbSlot"),
+                             ("unmarshal_one", "fbEnv"), ("unmarshal_one", "fbChild"), ("unmarshal_one", "fbLast")]),
+    ("janet_unmarshal_janet", [("unmarshal_one", "hookJanet")]),
+    ("unmarshal_one_abstract", [("unmarshal_one", "absKey")]),
+    ("unmarshal_one", [("unmarshal_one_fiber", "oneFiber"), ("unmarshal_one_def", "oneDef"), ("unmarshal_one_env", "oneEnv"),
+                       ("unmarshal_one_abstract", "oneAbstract"), ("unmarshal_one", "arrElem"), ("unmarshal_one", "tupElem"),
+                       ("unmarshal_one", "structProto"), ("unmarshal_one", "structKey"), ("unmarshal_one", "structVal"),
+                       ("unmarshal_one", "tabProto"), ("unmarshal_one", "tabKey"), ("unmarshal_one", "tabVal")]),
+]
+INC_FIELDS = [f for _, seq in INC_SITES for _, f in seq] + ["absCtx"]
+
+
+def split_args(s):
+    out, depth, cur = [], 0, ""
+    for ch in s:
+        if ch in "([{":
+            depth += 1
+        elif ch in ")]}":
+            depth -= 1
+        if ch == "," and depth == 0:
+            out.append(cur.strip())
+            cur = ""
+        else:
+            cur += ch
+    out.append(cur.strip())
+    return out
+
+
+def parse_depth_arg(arg, what):
+    """`flags` | `flags + k` | `k + flags` | `ctx->flags + k` (parentheses / spaces ignored) -> k"""
+    a = re.sub(r"[\s()]", "", arg)
+    m = re.fullmatch(r"(?:ctx->)?flags(?:\+(\d+))?", a) or re.fullmatch(r"(\d+)\+(?:ctx->)?flags", a)
+    if not m:
+        raise ExtractError("%s: depth argument %r is not `flags [+ k]`" % (what, arg))
+    return int(m.group(1) or 0)
+
+
+def calls_in(body):
+    """[(callee, [args])] of the five recursive entry points, in textual order"""
+    out = []
+    for m in re.finditer(r"\b(%s)\s*\(" % "|".join(CALLEES), body):
+        if body[:m.start()].rstrip().endswith("*"):
+            continue            # `static const uint8_t *unmarshal_one(`: declaration / definition header
+        i, depth = m.end() - 1, 0
+        while True:
+            if body[i] == "(":
+                depth += 1
+            elif body[i] == ")":
+                depth -= 1
+                if depth == 0:
+                    break
+            i += 1
+        out.append((m.group(1), split_args(body[m.end():i])))
+    return out
+
+
+def extract_incs(tree):
+    src = strip_comments(read(tree, "src/core/marsh.c"))
+    out = {}
+    total = 0
+    for fn, seq in INC_SITES:
+        body = func_body(src, fn)
+        got = calls_in(body[1:])
+        if [c for c, _ in got] != [c for c, _ in seq]:
+            raise ExtractError("%s: recursive calls %s, the model knows %s" % (fn, [c for c, _ in got], [c for c, _ in seq]))
+        for (callee, args), (_, field) in zip(got, seq):
+            if len(args) != 4:
+                raise ExtractError("%s: call of %s has %d arguments" % (fn, callee, len(args)))
+            out[field] = parse_depth_arg(args[3], "%s -> %s (%s)" % (fn, callee, field))
+        total += len(got)
+    # the marshal context handed to the abstract type's hook: {NULL, st, flags + k, data, at}
+    ab = func_body(src, "unmarshal_one_abstract")
+    m = re.search(r"JanetMarshalContext\s+context\s*=\s*\{([^}]*)\}\s*;", ab)
+    if not m:
+        raise ExtractError("unmarshal_one_abstract: marshal context initialiser not found")
+    ca = split_args(m.group(1))
+    if len(ca) != 5 or ca[1] != "st":
+        raise ExtractError("unmarshal_one_abstract: marshal context initialiser changed shape: %r" % ca)
+    out["absCtx"] = parse_depth_arg(ca[2], "unmarshal_one_abstract marshal context")
+    # the order of JanetMarshalContext's fields (flags third)
+    h = strip_comments(read(tree, "src/include/janet.h"))
+    if not re.search(r"typedef\s+struct\s*\{\s*void\s*\*m_state\s*;\s*void\s*\*u_state\s*;\s*int\s+flags\s*;\s*const\s+uint8_t\s*\*data\s*;\s*const\s+JanetAbstractType\s*\*at\s*;\s*\}\s*JanetMarshalContext\s*;", h):
+        raise ExtractError("JanetMarshalContext field order changed")
+    # nobody else re-enters the unmarshaller (the entry point janet_unmarshal itself calls unmarshal_one once)
+    half = src[src.index("#define MARSH_EOS"):]
+    allcalls = calls_in(half)
+    if len(allcalls) != total + 1:
+        raise ExtractError("marsh.c has %d calls of the recursive unmarshal functions, the model knows %d" % (len(allcalls), total + 1))
+    top = func_body(src, "janet_unmarshal")
+    tc = calls_in(top[1:])
+    if len(tc) != 1 or tc[0][0] != "unmarshal_one" or re.sub(r"\s", "", tc[0][1][3]) != "flags":
+        raise ExtractError("janet_unmarshal no longer enters unmarshal_one with its own flags")
+    # checked entry points: MARSH_STACKCHECK is the first statement of unmarshal_one and unmarshal_one_def
+    for fn in ("unmarshal_one", "unmarshal_one_def"):
+        b = func_body(src, fn)
+        first = b.index("MARSH_STACKCHECK") if "MARSH_STACKCHECK" in b else -1
+        if first < 0 or calls_in(b[1:first]) or "data" in re.sub(r"\b(uint8_t|int32_t|JanetFuncDef|Janet)\b[^;]*;", "", b[1:first]):
+            raise ExtractError("%s: MARSH_STACKCHECK is no longer the first statement" % fn)
+    return out
+
+
 # ---------------------------------------------------------------------------------------------- abstract hooks
 HOOK_KINDS = {
     # kind -> sequence of janet_unmarshal_* calls (in textual order) of the hook
@@ -399,7 +510,7 @@ def extract(tree):
     mm = strip_comments(read(tree, "src/core/marsh.c"))
     if not re.search(r"#ifdef\s+JANET_THREADS\s+void\s*\*p\s*=\s*janet_abstract_threaded", func_body(mm, "janet_unmarshal_abstract_threaded")):
         raise ExtractError("janet_unmarshal_abstract_threaded changed shape")
-    return {"refs": ref_checks(tree), "asmReturns": asm_returns(tree), "threads": threads, "sites": extract_sites(tree), "abstracts": extract_abstracts(tree), "pegSizeChecked": peg_size_checked(tree), "jopCall": jop_call}
+    return {"incs": extract_incs(tree), "refs": ref_checks(tree), "asmReturns": asm_returns(tree), "threads": threads, "sites": extract_sites(tree), "abstracts": extract_abstracts(tree), "pegSizeChecked": peg_size_checked(tree), "jopCall": jop_call}
 
 
 def render(tree):
@@ -424,6 +535,9 @@ def render(tree):
     L.append("abbrev threads : Bool := %s" % ("true" if x["threads"] else "false"))
     for k in ("refChecked", "envRefChecked", "defRefChecked"):
         L.append("abbrev %s : Bool := %s" % (k, "true" if x["refs"][k] else "false"))
+    L.append("")
+    L.append("/-- `flags + k` passed at each recursive call site of the unmarshaller (k per site) -/")
+    L.append("abbrev incs : Incs := {\n  " + ",\n  ".join("%s := %d" % (f, x["incs"][f]) for f in INC_FIELDS) + " }")
     L.append("")
     L.append("/-- every `return` of janet_asm1 (asm.c): (status is JANET_ASSEMBLE_OK, `janet_verify(def)` was tested on the way with a")
     L.append("    no-return error branch and only flag bookkeeping follows) -/")
